@@ -172,6 +172,8 @@ Section ExecutorProofs.
     counts_ok N (map b_freq bs) /\ (sumQ (map b_freq bs) == 1)%Q.
   Proof.
     intros HN H. unfold ExecModel.execute in H.
+    destruct (negb (validate_active _ _ _ _ _)); [discriminate|].
+    destruct (negb (shots_none_supported _ _ _ _ _)); [discriminate|].
     assert (C : counts_ok N (map b_freq bs)).
     { eapply exec_counts; eauto; try lia.
       exists [N]. split; simpl; try lia. constructor; auto. split; auto.
@@ -335,7 +337,10 @@ Section ExecutorProofs.
         destruct shots.
         + eapply apply_all_weight; eauto.
         + destruct (is_meas i && negb (none_ok i)); try discriminate. eapply apply_all_weight; eauto. }
-    intros H. rewrite (G _ _ H). simpl. ring.
+    intros H.
+    destruct (negb (validate_active _ _ _ _ _)); [discriminate|].
+    destruct (negb (shots_none_supported _ _ _ _ _)); [discriminate|].
+    rewrite (G _ _ H). simpl. ring.
   Qed.
 End ExecutorProofs.
 
@@ -373,6 +378,53 @@ Proof. intros H. unfold delete_modes_from_active. now rewrite remap_inverse. Qed
 
 Lemma forallb_memb_incl ms active : forallb (fun m => memb m active) ms = true -> incl ms active.
 Proof. rewrite forallb_forall. intros H m Hm. apply memb_In. now apply H. Qed.
+
+(* ------------------------------------------------------------------ validation before evolution *)
+Lemma forallb_memb_self l : forallb (fun m => memb m l) l = true.
+Proof. apply forallb_forall. intros m Hm. now apply memb_In. Qed.
+
+Lemma filter_not_self l : filter (fun m => negb (memb m l)) l = [].
+Proof.
+  assert (G : forall k, incl k l -> filter (fun m => negb (memb m l)) k = []).
+  { induction k as [|a r IH]; intros H; simpl; auto.
+    assert (E : memb a l = true) by (apply memb_In, H; now left). rewrite E. simpl.
+    apply IH. intros x Hx. apply H. now right. }
+  apply G, incl_refl.
+Qed.
+
+Section Validation.
+  Variables (Ins : Type).
+  Variable modes_of : Ins -> list nat.
+  Variable is_meas : Ins -> bool.
+
+  (* the register walk that the execution loop itself performs (its own membership test and
+     its own _delete_modes_from_active o _remap_modes update) *)
+  Fixpoint loop_checks (prog : list Ins) (active : list nat) : bool :=
+    match prog with
+    | [] => true
+    | i :: rest =>
+        let ms := match modes_of i with [] => active | l => l end in
+        forallb (fun m => memb m active) ms &&
+        loop_checks rest (if is_meas i then delete_modes_from_active active (remap_modes active ms)
+                          else active)
+    end.
+
+  (* _validate_active_modes accepts exactly the programs whose every instruction passes the
+     loop's own active-mode test: invalid programs are refused before any evolution and a
+     validated program is never refused for inactive modes mid-run *)
+  Theorem validate_active_agrees prog active :
+    validate_active Ins modes_of is_meas prog active = loop_checks prog active.
+  Proof.
+    revert active. induction prog as [|i rest IH]; intros active; cbn [validate_active loop_checks]; auto.
+    destruct (modes_of i) as [|m l] eqn:E.
+    - cbn [forallb andb]. rewrite forallb_memb_self. cbn [andb]. rewrite IH. f_equal.
+      destruct (is_meas i); auto.
+      rewrite delete_active_spec by apply incl_refl. now rewrite filter_not_self.
+    - destruct (forallb (fun m0 => memb m0 active) (m :: l)) eqn:F; cbn [andb]; auto.
+      rewrite IH. f_equal. destruct (is_meas i); auto.
+      rewrite delete_active_spec; auto. now apply forallb_memb_incl.
+  Qed.
+End Validation.
 
 Section Labels.
   Variables (St Ins Out : Type).
